@@ -434,6 +434,12 @@ thread_join(struct thread* self)
         /* exit path of the worker bodies (source.thread / sink.thread / filter.thread units):
          * flags cleared, device stopped, reader unmapped */
         if (k == 0) {
+            /* guarantee side of the rely used in sink.thread / filter units: the stop flags of
+             * the filter and the sink are raised by the source's own exit path, after its last
+             * commit - not by the client while the source body is still running (frames
+             * committed after the consumers' final flush would be left in the rings) */
+            VASSERT(!(v->source.is_running && (v->filter.is_stopping || v->sink.is_stopping)),
+                    "[C07.stop-flags-only-after-last-commit,C04.stop-flags-only-after-last-commit] the filter/sink stop flags were raised while the source body was still running");
             v->source.is_running = 0;
             v->source.is_stopping = 0;
             v->filter.is_stopping = 1;
